@@ -281,10 +281,38 @@ def check_exclusion_gate(rep, prog, bl, rid):
     """the function returns lifecycle.local_best only when !config.master_only and port_state != Faulty"""
     c = cnd.conds(prog, bl)
     found = False
+    # every definition of the return place: assignments and calls writing _0 directly
+    defs0 = []
     for bi, si, s in mir.iter_stmts(bl):
         if s["k"] == "assign" and s["p"]["l"] == 0 and not s["p"]["proj"]:
-            tr = c.prov.rvalue_tree(s["r"])
+            defs0.append((bi, s, c.prov.rvalue_tree(s["r"])))
+    for bi, t_, cal_ in mir.iter_calls(bl):
+        if t_["dest"]["l"] == 0 and not t_["dest"]["proj"]:
+            defs0.append((bi, t_, c.prov.call_tree(t_)))
+    for (bi, s, tr) in defs0:
+        if True:
             f = df.named_fields(tr)
+            t0 = df.strip(tr)
+            if t0[0] == "call" and t0[2] == "filter" and t0[1] == "core::option::Option::filter" and \
+                    (df.named_fields(t0[3][0]) or ("",))[-1] == "local_best":
+                # `local_best.filter(|_| keep)`: Erbest is handed out exactly when `keep` is true; keep must force
+                # !master_only and port_state != Faulty
+                found = True
+                atoms = df.forced(t0[3][1], True, bl)
+                lits = c.must_literals(bi)
+                mo = any(a.endswith("master_only") and v is False for (a, v) in atoms) or any(
+                    l[0] == "bool" and l[2] is False and (df.named_fields(l[1]) or ())[-1:] == ("master_only",) for l in lits)
+                nf = any(("port_state" in a and "Faulty" in a and a.startswith("eq(")) and v is False for (a, v) in atoms) or \
+                    "Faulty" not in fsm.port_state_set(lits)
+                construct = "returns Erbest"
+                if mo and nf:
+                    rep.ok(rid, bl.key, construct, detail=sorted("%s=%s" % av for av in atoms), where=fc.where(bl, s["sp"][1]))
+                else:
+                    rep.violation(rid, bl.key, construct,
+                                  "the port's Erbest can take part in the Ebest election although %s (the filter keeps it when %s)" % (
+                                      "the port is master-only" if not mo else "the port may be Faulty",
+                                      df.canon(t0[3][1], bl)[:200]), where=fc.where(bl, s["sp"][1]))
+                continue
             if f and f[-1] == "local_best":
                 found = True
                 lits = c.must_literals(bi)
